@@ -8,6 +8,7 @@ def dispatch (op : String) (args : List Sx) : String :=
   | "dec" => opDec args
   | "rt" => opRt args
   | "probe" => opProbe args
+  | "check" => opCheck args
   | "ping" => "pong"
   | _ => "bad-op"
 
